@@ -329,6 +329,8 @@ def lazy_iter(x):
         yield from lazy_iter(it_.call(it_.dunder(x, "__iter__"), x, []))
     elif hasattr(x, "__next__"):
         yield from x
+    elif x is None or isinstance(x, (bool, int, float)):
+        raise PyRaise(f"TypeError: '{type(x).__name__}' object is not iterable")
     else:
         yield from list(x)
 
